@@ -21,7 +21,8 @@ NoEnv == <<>>
 
 Init == st \in {[kind |-> "val", tn |-> n, v |-> Default(n, NoEnv), k |-> 0] : n \in Tops}
 
-Enc(tn, v) == [tl1 |-> Enc1(tn, NoEnv, v, TRUE).b, tl1b |-> Enc1(tn, NoEnv, v, FALSE).b,
+Enc(tn, v) == [tl1 |-> IF TY(tn).origin2 THEN <<>> ELSE Enc1(tn, NoEnv, v, TRUE).b,
+               tl1b |-> IF TY(tn).origin2 THEN <<>> ELSE Enc1(tn, NoEnv, v, FALSE).b,
                tl2 |-> IF TY(tn).tl2 THEN Enc2(tn, v, FALSE) ELSE <<>>, json |-> WJ(tn, NoEnv, v, "canon")]
 StepVal == /\ st.kind = "val" /\ st.k < K
            /\ \E w \in Mods(st.tn, NoEnv, st.v) :
@@ -57,10 +58,11 @@ DecOut(tn, b, boxed) ==
 
 Payload ==
   IF st.kind = "val"
-  THEN [kind |-> "val", tn |-> st.tn, k |-> st.k,
-        tl1ok |-> Enc1(st.tn, NoEnv, st.v, TRUE).ok,
-        tl1 |-> Bytes(Enc1(st.tn, NoEnv, st.v, TRUE)),
-        tl1b |-> Bytes(Enc1(st.tn, NoEnv, st.v, FALSE)),
+  THEN [kind |-> "val", tn |-> st.tn, k |-> st.k, origin2 |-> TY(st.tn).origin2,
+        tl1ok |-> TY(st.tn).origin2 \/ Enc1(st.tn, NoEnv, st.v, TRUE).ok,
+        tl1 |-> IF TY(st.tn).origin2 THEN <<>> ELSE Bytes(Enc1(st.tn, NoEnv, st.v, TRUE)),
+        tl1b |-> IF TY(st.tn).origin2 THEN <<>> ELSE Bytes(Enc1(st.tn, NoEnv, st.v, FALSE)),
+        small |-> ~TY(st.tn).origin2 /\ SmallElems(st.tn, NoEnv, st.v),
         hastl2 |-> TY(st.tn).tl2,
         tl2 |-> IF TY(st.tn).tl2 THEN Enc2(st.tn, st.v, FALSE) ELSE <<>>,
         json |-> WJ(st.tn, NoEnv, st.v, "canon")]
@@ -68,7 +70,8 @@ Payload ==
   THEN [kind |-> "json", tn |-> st.tn, m |-> st.m, bad |-> st.m \in BadModes,
         alt |-> WJ(st.tn, NoEnv, st.v, st.m),
         json |-> WJ(st.tn, NoEnv, st.v, "canon"),
-        tl1 |-> Bytes(Enc1(st.tn, NoEnv, st.v, TRUE)),
+        tl1 |-> IF TY(st.tn).origin2 THEN <<>> ELSE Bytes(Enc1(st.tn, NoEnv, st.v, TRUE)),
+        origin2 |-> TY(st.tn).origin2,
         hastl2 |-> TY(st.tn).tl2,
         tl2 |-> IF TY(st.tn).tl2 THEN Enc2(st.tn, st.v, FALSE) ELSE <<>>]
   ELSE [kind |-> "bytes", tn |-> st.tn, boxed |-> st.boxed, b |-> st.b, dec |-> DecOut(st.tn, st.b, st.boxed)]
@@ -86,7 +89,7 @@ RoundTrip2 ==
     LET e == Enc2(st.tn, st.v, FALSE)
         d == Dec2(st.tn, e, 1, Len(e))
     IN d.ok /\ d.v = st.v /\ d.pos = Len(e) + 1
-ValuesValid == st.kind = "val" => Valid1(st.tn, NoEnv, st.v)
+ValuesValid == st.kind = "val" /\ ~TY(st.tn).origin2 => Valid1(st.tn, NoEnv, st.v)
 (* whatever is accepted re-encodes, and the re-encoding decodes to the same value *)
 Canonical1 ==
   st.kind = "bytes" =>
